@@ -48,8 +48,14 @@ def check_undirected(item, acc):
     kw = {} if size_arg is None else ({"size": size_arg[1]} if size_arg[0] == "size" else {"order": size_arg[1] - 1})
     restrict = None if size_arg is None else size_arg[1]
 
+    stall = None
+    if isinstance(R, (tuple, list)):
+        # ("stall", i, j, D): the first D proposal draws all answer the pair (i, j) - a long run of rejected redraws when the two
+        # hyperedges differ in size (one legitimate random outcome among the others) - and the full tree is explored after it
+        stall, R = tuple(R), 0
+
     def run(ch):
-        fake = CH.FakeNumpyRandom(ch, np)
+        fake = CH.FakeNumpyRandom(ch, np) if stall is None else StallNumpyRandom(ch, np, stall[1], stall[2], stall[3])
         with CH.patched(CM, np=CH.NumpyShim(np, fake)):
             return CM.configuration_model(h, n_steps=n_steps, label=label, detailed=detailed, **kw)
 
@@ -104,6 +110,21 @@ def check_undirected(item, acc):
     acc.count("undirected-configs")
     if len(outs) >= 2:
         acc.count("undirected-configs-with-several-outcomes")
+
+
+class StallNumpyRandom(CH.FakeNumpyRandom):
+    """the first D pair draws are forced to (i, j) (no choice point, no budget); every later draw is a choice point as usual"""
+
+    def __init__(self, ch, real_np, i, j, D):
+        CH.FakeNumpyRandom.__init__(self, ch, real_np)
+        self.pair, self.left = (i, j), D
+
+    def randint(self, low, high=None, size=None):
+        lo, hi = (0, low) if high is None else (low, high)
+        if self.left > 0 and size == 2 and lo <= min(self.pair) and max(self.pair) < hi:
+            self.left -= 1
+            return self.np.array(self.pair)
+        return CH.FakeNumpyRandom.randint(self, low, high, size)
 
 
 class PairedStdRandom(CH.FakeStdRandom):
@@ -203,6 +224,7 @@ def undirected_items(tier):
     inputs += [((1, 2, 3, 4), (4, 5)), ((1, 2, 3, 4), (1, 5)), ((1, 2, 3, 4, 5), (1, 2)), ((1, 2, 3, 4), (2, 5), (3, 5))]
     # singleton hyperedges next to a mixing pair: size=1 / order=0 must restrict the reshuffle to them (0 is a valid order)
     inputs += [((1,), (2,), (1, 2), (3, 4)), ((3,), (1, 2), (3, 4)), ((1,), (5,), (1, 2, 3), (2, 4, 5))]
+    stalled = {}
     for es in inputs:
         sizes = sorted({len(e) for e in es})
         for n_steps in ((0, 1, 2) if tier == "quick" else (0, 1, 2, 3)):
@@ -219,6 +241,14 @@ def undirected_items(tier):
                         Rs = (0,)
                     for R in Rs:
                         yield ("U", (es, n_steps, label, detailed, None, R))
+                    if detailed and len(sizes) > 1 and n_steps == 1:
+                        nst = stalled.get(len(es), 0)
+                        if nst < (10 if tier == "quick" else 60) or len(es) > 3 or max(sizes) > 3:
+                            stalled[len(es)] = nst + 1
+                            m = len(es)
+                            for i, j in itertools.permutations(range(m), 2):
+                                for D in ((30, 300) if nst else (30, 300, 3000)) + ((30000,) if tier != "quick" and nst == 0 else ()):
+                                    yield ("U", (es, n_steps, label, detailed, None, ("stall", i, j, D)))
                     if n_steps in (1, 2) and label == "edge":
                         for s in sizes:
                             yield ("U", (es, n_steps, label, detailed, ("size", s), 0))
